@@ -31,7 +31,8 @@ def gen_history(rng, crc, pregrow=True):
         db = 2 if (two and rng.chance(1, 3)) else 1
         if r < 62:
             k = rng.choice(KEYS)
-            vl = rng.weighted([(0, 1), (5, 4), (20, 6), (100, 4), (700, 2), (4200 if crc & 2 else 1500, 1)])
+            vl = rng.weighted([(0, 1), (5, 4), (20, 6), (100, 4), (700, 2), (4200 if crc & 2 else 1500, 1)] +
+                               ([(3000, 2), (1500, 1)] if crc & 2 else []))   # fits the 4 KB buffer, not what is left of it
             old = live.get((db, k), 0)
             if budget - vl + old < 0:
                 vl = 5
@@ -102,6 +103,37 @@ def interesting_cuts(rng, wal, frames, budget):
             if by[op]:
                 res.append(by[op].pop())
     return sorted(cuts), sorted(set(res) - cuts)
+
+
+def aimed_flips(rng, wal, frames, budget):
+    """bit flips aimed at (a) every byte range that no checksum of the log covers (on a correct writer: only the
+    segment headers), (b) every WRITE payload; returns list of (offset, mask)"""
+    covered = bytearray(len(wal))
+    for p, op, sz in frames:
+        if op == 127:
+            ln = int.from_bytes(wal[p + 8:p + 12], "little")
+            if int.from_bytes(wal[p + 4:p + 8], "little"):
+                for i in range(p + 12, min(len(wal), p + 12 + ln)):
+                    covered[i] = 1
+        elif op == 3 and int.from_bytes(wal[p + 4:p + 8], "little"):
+            for i in range(p + 20, min(len(wal), p + sz)):
+                covered[i] = 1
+    unc = [i for i in range(len(wal)) if not covered[i]]
+    hdr = set()
+    for p, op, sz in frames:
+        if op == 127:
+            hdr.update(range(p, p + 12))
+    out = []
+    naked = [i for i in unc if i not in hdr]          # logged bytes outside every checksum: should not exist
+    for i in naked[:: max(1, len(naked) // max(1, budget // 2))][: budget // 2]:
+        out.append((i, 1 << rng.below(8)))
+    hl = sorted(i for i in unc if i in hdr)
+    for _ in range(min(len(hl), budget // 4)):
+        out.append((rng.choice(hl), 1 << rng.below(8)))
+    for p, op, sz in frames:
+        if op == 3 and sz > 20 and len(out) < budget:
+            out.append((p + 20 + rng.below(sz - 20), 1 << rng.below(8)))
+    return out[:budget], len(naked)
 
 
 def run_history(impl, wd, name, crc, ops):
@@ -258,6 +290,9 @@ def do_history(run, impl, model, wd, name, crc, ops, ncut, nflip, corpus_cases=N
     if not (f.get("parse") == "ok" and f.get("roundtrip") == "true" and f.get("wf") == "true" and f.get("crc") == "true"
             and f.get("layout") == "true"):
         run.broken.append("T2 correspondence: real log does not satisfy the model's well-formedness (%s): %s" % (name, out[0] if out else err))
+    elif (crc & 1) and f.get("crcfull") != "true":
+        run.broken.append("T2 correspondence: %s was taken with checksums on but holds a segment or WRITE record whose stored checksum is "
+                          "not the one the protocol computes (Proto.step / Scan.crc_full): some logged bytes are covered by no checksum" % name)
     elif cls != "growth-checkpoint" and f.get("sp", "") != want_sp and not (f.get("sp", "").endswith(want_sp) and want_sp):
         run.broken.append("T2 correspondence: savepoint offsets of the model (%s) differ from the log sizes observed after each sync (%s)" % (f.get("sp"), want_sp))
     frames = W.frame(wal)
@@ -275,6 +310,10 @@ def do_history(run, impl, model, wd, name, crc, ops, ncut, nflip, corpus_cases=N
     else:
         b, inner = interesting_cuts(rng, wal, frames, ncut)
         cases = [(c, []) for c in b + inner]
+        if crc & 1:
+            af, naked = aimed_flips(rng, wal, frames, nflip)
+            run.dist("logged_bytes_outside_every_checksum", naked)
+            cases += [(len(wal), [f1]) for f1 in af]
         for _ in range(nflip):
             if len(wal) < 2:
                 break
